@@ -90,4 +90,4 @@ where
 
 #[cfg(kani)]
 #[path = "/verif/kani/hypergeom_gene.rs"]
-mod verif_kani;
+pub(crate) mod verif_kani;
